@@ -7,3 +7,5 @@ python3 tools/check.py $p --tier $t 2>&1 | tail -6
 rc=$?
 git -C /repo checkout -- .
 echo "seed=$d prop=$p"
+# the run above regenerated lean/Fix8Model/Gen/* from the mutated tree: regenerate from the restored tree so that nothing mutated is left behind
+python3 tools/gen_facts.py > /dev/null 2>&1
